@@ -68,6 +68,7 @@ TABLE: list[tuple[str, str, bool, str, list[F]]] = [
             F("lit", 'Literal["x", "y"]', "prop", "lit", '"x"'),
             F("ti", "tuple[int, ...]", "prop", "tint", "()"),
             F("tsi", "tuple[str, int]", "prop", "tsi", '("k", 1)'),
+            F("uid", "UserId", "prop", "str", 'UserId("u")'),
         ],
     ),
     ("FS", "Expr", False, "", [F("s", "frozenset[str]", "prop", "fs")]),
@@ -83,7 +84,7 @@ TABLE: list[tuple[str, str, bool, str, list[F]]] = [
         ],
     ),
     ("Seq", "Expr", False, "", [F("items", "tuple[Expr, ...]", "tuple", "any", "()")]),
-    ("Fixed", "Expr", False, "", [F("pair", "tuple[LeafA, LeafB]", "fixed", "ab")]),
+    ("Fixed", "Expr", True, "", [F("pair", "tuple[LeafA, LeafB]", "fixed", "ab")]),
     (
         "Mixed",
         "Expr",
@@ -131,8 +132,11 @@ from __future__ import annotations
 import enum
 from dataclasses import dataclass, field
 from pathlib import Path
-from typing import Literal, Any
+from typing import Literal, Any, NewType
 from mashumaro.types import SerializableType
+
+UserId = NewType("UserId", str)
+
 from pyoak.node import ASTNode
 from simkit.core import FAULTS
 
